@@ -7,7 +7,7 @@ CONSTANTS
   Variant = "intended"
   MaxPert = 2
   Rounds = 24
-  OwnConds <- OCTwo
+  OwnConds <- OCNone
   Presets <- BNo
   GenSels <- BNo
   ScaleRevs <- BBoth
